@@ -19,8 +19,27 @@ func ruleSkipListSearch(p *Prog, r *Report, rule string) {
 		if !c.Call.IsInvoke() || c.Call.Method.Name() != "Compare" || len(c.Call.Args) != 2 {
 			return false
 		}
-		sl, ok := c.Call.Args[0].(*ssa.Slice)
-		return ok && isFieldLoad(sl.X, tM, "kvData") && mParam("key")(c.Call.Args[1])
+		// the stored key: a slice of kvData, possibly through a variable that is only assigned on the
+		// path that evaluates the comparison (phi with the zero value)
+		stored := func(v ssa.Value) bool {
+			sl, ok := v.(*ssa.Slice)
+			return ok && isFieldLoad(sl.X, tM, "kvData")
+		}
+		a0 := stripConv(c.Call.Args[0])
+		isStored := stored(a0)
+		if ph, ok := a0.(*ssa.Phi); ok && !isStored {
+			n := 0
+			for _, e := range ph.Edges {
+				e = stripConv(e)
+				if stored(e) {
+					n++
+				} else if !isNilConst(e) {
+					n = -100
+				}
+			}
+			isStored = n > 0
+		}
+		return isStored && mParam("key")(c.Call.Args[1])
 	}
 	nextIsZero := func(cond ssa.Value) (isZero, known bool, neg bool) {
 		b, ok := cond.(*ssa.BinOp)
